@@ -18,6 +18,7 @@ def run(ck, fb):
     r08h(ck, fb)
     r08j(ck, fb)
     r08k(ck, fb)
+    r08l(ck, fb)
     ck.borrow('rules.c05', {'R05h': 'R08i'}, 'the membership saved when a snapshot is installed must be the one recorded in that snapshot')
 
 
@@ -333,3 +334,35 @@ def r08k(ck, fb, R='R08k'):
                    'a log range at or below the bound is removed only if also %s: the open log of a follower that is caught up by a snapshot '
                    '(bound u64::MAX, end index u64::MAX, is_close false) survives the install, stays the file appends go to, and the entry after '
                    'the snapshot is rejected (log write index not equal) - also after a restart' % extra, 'bound >= end index alone')
+
+
+def r08l(ck, fb, R='R08l'):
+    ck.rule(R, 'a snapshot that was begun and never completed does not lock the next one out: RaftSnapshotManager::get_next_id refuses while '
+               '`building` is set, and `building` is released only by complete_snapshot. Both the local compaction and the install of a leader\'s '
+               'snapshot take their id there, so whatever sets `building` must release it on every failure path too. On this tree nothing sets it '
+               '(the guard is dead); the rule fails as soon as a function assigns it without a release that does not depend on completion')
+    SMN = 'rnacos::raft::filestore::raftsnapshot::RaftSnapshotManager'
+    g = ck.body(SMN + '::get_next_id', R)
+    if not g:
+        return
+    guard = 'building' in util.read_fields(g)
+    sets = []
+    for b in fb.bodies.values():
+        if 'raftsnapshot' not in b.name or '::tests::' in b.name or 'seeded_demo' in b.name:
+            continue
+        for (o, f, bb, st) in b.field_writes():
+            if f == 'building' and o.endswith('RaftSnapshotManager'):
+                rv = st['rv']
+                none = rv['k'] == 'agg' and rv.get('variant') == 'None'
+                if not none and not b.name.endswith('::new'):
+                    sets.append((b, bb))
+    rel = []
+    for b in fb.bodies.values():
+        if 'raftsnapshot' in b.name and not b.name.endswith('complete_snapshot') and not b.name.endswith('::new'):
+            rel += [s for s in util.mut_calls_on_field(b, 'building', r'Option::<T>::take$')]
+            rel += [bb for (o, f, bb, st) in b.field_writes() if f == 'building' and st['rv']['k'] == 'agg' and st['rv'].get('variant') == 'None']
+    ck.require(not (guard and sets) or bool(rel), R, 'building:released-without-completion', sets[0][0].where(sets[0][1]) if sets else g.where(),
+               '`building` is set (%s) and get_next_id refuses while it is set, but only complete_snapshot releases it: after one compaction or '
+               'install that fails before completion every later snapshot - also the one the leader sends to catch this node up - is refused '
+               '("An snapshots is being packaged") until the process is restarted' % ', '.join(sorted(set(x[0].name.split('::')[-1] for x in sets))),
+               'guard %s, %d setters' % ('present' if guard else 'absent', len(sets)))
